@@ -1,7 +1,7 @@
 (* C10 - dictionaries use the canonical TON Hashmap encoding; the parsers accept every valid tree. *)
 From Coq Require Import NArith ZArith List Bool.
 From PTQ Require Import Base.Result Base.Bytes Base.Bits Model.Cell Model.Builder Model.Hashmap
-  Spec.TlbPrim Spec.Hashmap Proofs.HmLabel Proofs.HmParse Proofs.HmTree.
+  Spec.TlbPrim Spec.Hashmap Spec.HashmapAug Proofs.HmLabel Proofs.HmParse Proofs.HmParseAug Proofs.HmTree.
 Import ListNotations.
 
 (* the label kind chosen by the library equals the reference choice (shortest encoding, TON's
@@ -62,3 +62,41 @@ Example C10_label_too_long_example :
   s_load_dict (mkS [true] [c]) 4 = Err EValue /\
   parse_aug_edge parse_fuel 0 ty_ordinary (begin_parse c) 4 [] = Err EValue.
 Proof. vm_compute. repeat split; reflexivity. Qed.
+
+(* ---- the augmented parser (parse_hashmap_aug; HashmapAug n X Y of block.tlb) ---- *)
+
+(* it decodes every valid augmented tree whatever label kinds it uses: the values are the leaf slices after
+   the extra, in key order; the extras come in post-order (left subtree, right subtree, fork); a pruned
+   (non-ordinary) subtree is skipped before its label is looked at *)
+Theorem C10_parse_aug_any : forall t n ylen prefix, (n <= 1023)%nat -> avtree_ok t n ylen = true ->
+  match acell_of t n with Cell ty bits refs =>
+    parse_aug_edge parse_fuel ylen ty (mkS bits refs) (Z.of_nat n) prefix
+      = Ok (aleaves_of t prefix, aextras_of t) end.
+Proof. exact parse_aug_any_valid. Qed.
+Print Assumptions C10_parse_aug_any.
+
+(* the augmented and the plain reading of the same tree find the same keys in the same order *)
+Theorem C10_parse_aug_keys : forall t prefix,
+  map fst (leaves_of (plain_of t) prefix) = map fst (aleaves_of t prefix).
+Proof. exact plain_of_keys. Qed.
+Print Assumptions C10_parse_aug_keys.
+
+(* one extra per leaf and one per fork *)
+Theorem C10_parse_aug_extras_count : forall t prefix, av_unpruned t = true ->
+  (length (aextras_of t) + 1 = 2 * length (aleaves_of t prefix))%nat.
+Proof. exact aextras_count. Qed.
+Print Assumptions C10_parse_aug_extras_count.
+
+(* HashmapAug 2 with 3-bit extras: keys 00 -> 1 (extra 001), 01 pruned, 1x: 10 -> (extra 010), 11 -> (extra 011) *)
+Example C10_aug_example :
+  let y (n : N) := to_bits 3 n in
+  let v := ([true], @nil cell) in
+  let t := AVFork [] KShort
+             (AVFork [] KLong (AVLeaf [] KSame (y 1%N) v) (AVPruned (Cell 1 (to_bits 8 1 ++ to_bits 8 1 ++ repeat false 272) [])) (y 5%N))
+             (AVFork [] KSame (AVLeaf [] KShort (y 2%N) v) (AVLeaf [] KLong (y 3%N) ([], [])) (y 6%N))
+             (y 7%N) in
+  avtree_ok t 2 3 = true /\
+  parse_aug_edge parse_fuel 3 (-1) (begin_parse (acell_of t 2)) 2 [] =
+    Ok ([([false; false], mkS [true] []); ([true; false], mkS [true] []); ([true; true], mkS [] [])],
+        [y 1%N; y 5%N; y 2%N; y 3%N; y 6%N; y 7%N]).
+Proof. vm_compute. split; reflexivity. Qed.
